@@ -5,9 +5,11 @@
 package respondent
 
 //@ struct pipe
+//@   never_closed: sendQ
 //@   immutable: s p sendQ closeQ
 //@
 //@ struct socket
+//@   invariant sendQLen >= 0
 //@   close_token closeQ when closed
 //@   close_token sizeQ
 //@   lock Mutex level 20
